@@ -38,8 +38,8 @@ type Col struct {
 // PKCase is the re-executable description of one primary-key-index case. Rows are given unsorted; the check
 // sorts them with the column-store writer's own sort helper, exactly like the flush path does.
 type PKCase struct {
-	Kind string `json:"kind"` // "pk"
-	Cols []Col  `json:"cols"` // sorted by name (record schema order); the time column is implicit and last
+	Kind string   `json:"kind"` // "pk"
+	Cols []Col    `json:"cols"` // sorted by name (record schema order); the time column is implicit and last
 	Keys []string `json:"keys"` // primary key (== sort key prefix) in key order; may contain "time"
 	// Rows[i] = one value per Cols entry plus the time as last element; null = JSON null.
 	// ints/time: decimal; floats: strconv 'g' -1; bool: true/false; strings: as is.
@@ -393,19 +393,19 @@ func (tb *table) parseCond(text string) (influxql.Expr, error) {
 
 // features of a parsed condition used for classes and for the code-defined known-finding predicates.
 type feat struct {
-	refs      map[string]int // column -> number of atoms
-	ops       map[string]int
-	and, or   int
-	atoms     int
-	depth     int
-	mixedNum  bool // numeric literal of the other numeric kind than the column
-	strMatch  bool // MATCHPHRASE / LIKE / MATCH atom
-	mixedCols map[string]bool // columns compared with a numeric literal of the other kind
+	refs       map[string]int // column -> number of atoms
+	ops        map[string]int
+	and, or    int
+	atoms      int
+	depth      int
+	mixedNum   bool            // numeric literal of the other numeric kind than the column
+	strMatch   bool            // MATCHPHRASE / LIKE / MATCH atom
+	mixedCols  map[string]bool // columns compared with a numeric literal of the other kind
 	phraseCols map[string]bool // columns under MATCHPHRASE
-	likeCols  map[string]bool // columns under LIKE / MATCH
-	phrases   []string        // MATCHPHRASE literals
-	inAtom    bool
-	other     bool // a construct the evaluator does not decide
+	likeCols   map[string]bool // columns under LIKE / MATCH
+	phrases    []string        // MATCHPHRASE literals
+	inAtom     bool
+	other      bool // a construct the evaluator does not decide
 }
 
 func (tb *table) features(e influxql.Expr) *feat {
